@@ -629,7 +629,8 @@ def _check_read_all(run, world, mod, Q, fn, cfg, ys, sel):
                     lst, indexed = nm, True
     if lst is None and any(
             isinstance(x, ast.Call) and isinstance(x.func, ast.Attribute) and
-            x.func.attr == "append" and x.args and not any(
+            x.func.attr == "append" and x.args and not isinstance(
+                x.args[0], ast.Constant) and not any(
                 isinstance(y, ast.Attribute) and y.attr in (
                     "as_integer", "value") for y in ast.walk(x.args[0]))
             for x in ast.walk(loop.ast)):
